@@ -7,12 +7,14 @@ import (
 	"errors"
 	"fmt"
 	"io"
+	"net"
 	"net/http"
 	"net/url"
 	"strings"
 	"testing"
 	"time"
 
+	"github.com/imroc/req/v3/internal/common"
 	"github.com/imroc/req/v3/internal/verifh"
 )
 
@@ -155,14 +157,17 @@ func TestVerif_C08_maperr(t *testing.T) {
 
 func TestVerif_C08_retrydecision(t *testing.T) {
 	s := verifh.New(t, "C08", "retrydecision",
-		"Request.do driven by a scripted round tripper (WrapRoundTrip): MaxRetries 0..4 x sequences of attempt results {ok, context.Canceled, DeadlineExceeded, other error} (errors wrapped in *url.Error as http.Client does), zero retry interval; compared: number of attempts made and class of the final result; non-trivial = at least one retry or a context error")
+		"Request.do driven by a scripted round tripper (WrapRoundTrip): MaxRetries -1 (unlimited) and 0..4 x sequences of attempt results {ok, context.Canceled, DeadlineExceeded, other error} (errors wrapped in *url.Error as http.Client does), zero retry interval; compared: number of attempts made and class of the final result; non-trivial = at least one retry or a context error")
 	r := s.Rand()
 	cnt := map[string]int{}
 	count := func(k string) { cnt[k]++; s.Count(k) }
 	n := verifh.N(300, 6000)
 	for c := 0; c < n; c++ {
-		maxRetries := r.Intn(5)
+		maxRetries := r.Intn(6) - 1 // -1: retry without limit (rare but legal)
 		seq := make([]string, maxRetries+2)
+		if maxRetries < 0 {
+			seq = make([]string, 2+r.Intn(6))
+		}
 		for i := range seq {
 			switch x := r.Intn(10); {
 			case x < 5:
@@ -175,11 +180,18 @@ func TestVerif_C08_retrydecision(t *testing.T) {
 				seq[i] = "deadline"
 			}
 		}
+		if maxRetries < 0 {
+			// the script of an unlimited request must end by itself
+			seq[len(seq)-1] = verifh.Pick(r, []string{"ok", "canceled", "canceled"})
+		}
 		attempts := 0
 		cl := C().SetCommonRetryCount(maxRetries).SetCommonRetryFixedInterval(0)
 		cl.WrapRoundTripFunc(func(rt RoundTripper) RoundTripFunc {
 			return func(rq *Request) (*Response, error) {
-				k := seq[attempts]
+				k := "ok" // (beyond the script: an attempt that should never have been made)
+				if attempts < len(seq) {
+					k = seq[attempts]
+				}
 				attempts++
 				resp := &Response{Request: rq}
 				var err error
@@ -222,8 +234,14 @@ func TestVerif_C08_retrydecision(t *testing.T) {
 		final := c08Class(ferr)
 		got := fmt.Sprintf("attempts=%d final=%s", attempts, final)
 		// oracle: never more than MaxRetries+1 attempts; nothing after context.Canceled
-		ok := attempts <= maxRetries+1
-		for i := 0; i < attempts-1; i++ {
+		ok := attempts <= maxRetries+1 || (maxRetries < 0 && attempts <= len(seq))
+		if maxRetries < 0 {
+			count("unlimited-retries")
+			if final == "canceled" {
+				count("unlimited-retries-stopped-by-cancel")
+			}
+		}
+		for i := 0; i < attempts-1 && i < len(seq); i++ {
 			if seq[i] == "canceled" || seq[i] == "ok" {
 				ok = false
 			}
@@ -234,10 +252,97 @@ func TestVerif_C08_retrydecision(t *testing.T) {
 			attempts > 1 || final == "canceled" || final == "deadline",
 			fmt.Sprintf("MaxRetries=%d results=%v -> %s", maxRetries, seq, got))
 	}
-	for _, want := range []string{"final=ok", "final=canceled", "final=deadline", "final=other", "attempts=1", "attempts=3"} {
+	for _, want := range []string{"final=ok", "final=canceled", "final=deadline", "final=other", "attempts=1", "attempts=3", "unlimited-retries"} {
 		if cnt[want] == 0 {
 			t.Errorf("bucket %s not reached", want)
 		}
+	}
+	s.Finish()
+}
+
+// ---------------------------------------------------------------------------------------
+// unit lane 3: what the REAL cancellation / timeout error values answer to errors.Is / errors.As,
+// behind every chain of real wrappers, vs the model's table (Req/Pool/CancelErr.lean)
+// ---------------------------------------------------------------------------------------
+
+func c08Rel(err error) string {
+	f := func(b bool) string {
+		if b {
+			return "1"
+		}
+		return "0"
+	}
+	var ne net.Error
+	to := errors.As(err, &ne) && ne.Timeout()
+	return fmt.Sprintf("c=%s d=%s t=%s", f(errors.Is(err, context.Canceled)), f(errors.Is(err, context.DeadlineExceeded)), f(to))
+}
+
+func TestVerif_C08_errclass(t *testing.T) {
+	s := verifh.New(t, "C08", "errclass",
+		"the real error values {context.Canceled, context.DeadlineExceeded, errTimeout (ResponseHeaderTimeout), tlsHandshakeTimeoutError, common.ErrRequestCanceled, errRequestCanceledConn, errServerClosedIdle, an io error} behind every chain (length 0..3) of the real wrappers {*url.Error, nothingWrittenError, transportReadFromServerError, the broken-connection wrapper produced by the real mapRoundTripError}: errors.Is(context.Canceled), errors.Is(context.DeadlineExceeded), net.Error.Timeout() through errors.As — compared with the model's table; plus the same three questions on what the real mapRoundTripError returns for a recorded cancellation cause; non-trivial = a context / timeout source")
+	srcs := []struct {
+		name string
+		err  error
+	}{
+		{"ctxCanceled", context.Canceled}, {"ctxDeadline", context.DeadlineExceeded}, {"respHeaderTimeout", errTimeout},
+		{"tlsHandshakeTimeout", tlsHandshakeTimeoutError{}}, {"reqCanceled", common.ErrRequestCanceled},
+		{"reqCanceledConn", errRequestCanceledConn}, {"serverClosedIdle", errServerClosedIdle}, {"io", io.ErrUnexpectedEOF},
+	}
+	wrap := func(c byte, err error) error {
+		switch c {
+		case 'u':
+			return &url.Error{Op: "Get", URL: "http://x/", Err: err}
+		case 'n':
+			return nothingWrittenError{err}
+		case 'r':
+			return transportReadFromServerError{err}
+		default:
+			// the wrapper only the real mapRoundTripError builds: a broken connection, bytes written
+			done := make(chan struct{})
+			close(done)
+			pc := &persistConn{t: T(), closech: make(chan struct{}), writeLoopDone: done, closed: errors.New("c08: closed"), nwrite: 7}
+			treq := &transportRequest{Request: &http.Request{Method: "GET", URL: &url.URL{Scheme: "http", Host: "x"}}}
+			return pc.mapRoundTripError(treq, 0, err)
+		}
+	}
+	var chains []string
+	chains = append(chains, "-")
+	alpha := "unrb"
+	for _, a := range alpha {
+		chains = append(chains, string(a))
+		for _, b := range alpha {
+			chains = append(chains, string(a)+string(b))
+			if verifh.Thorough() {
+				for _, c := range alpha {
+					chains = append(chains, string(a)+string(b)+string(c))
+				}
+			}
+		}
+	}
+	for _, src := range srcs {
+		for _, ch := range chains {
+			err := src.err
+			if ch != "-" {
+				for i := 0; i < len(ch); i++ {
+					err = wrap(ch[i], err)
+				}
+			}
+			got := c08Rel(err)
+			s.Count("rel:" + got)
+			s.Case(fmt.Sprintf("c08errclass %s %s", src.name, ch), got, true, "", strings.HasPrefix(src.name, "ctx") || strings.Contains(src.name, "Timeout"),
+				fmt.Sprintf("%s behind wrappers %q (%T) -> %s", src.name, ch, err, got))
+		}
+	}
+	// what mapRoundTripError hands out for a recorded cause is the cause itself
+	for i, cause := range []error{context.Canceled, context.DeadlineExceeded} {
+		done := make(chan struct{})
+		close(done)
+		pc := &persistConn{t: T(), closech: make(chan struct{}), writeLoopDone: done, closed: errors.New("c08: closed"), nwrite: 3, canceledErr: cause}
+		treq := &transportRequest{Request: &http.Request{Method: "GET", URL: &url.URL{Scheme: "http", Host: "x"}}}
+		out := pc.mapRoundTripError(treq, 0, errors.New("c08: use of closed network connection"))
+		name := []string{"ctxCanceled", "ctxDeadline"}[i]
+		s.Case(fmt.Sprintf("c08errclass %s u", name), c08Rel(&url.Error{Op: "Get", URL: "http://x/", Err: out}), true, "", true,
+			fmt.Sprintf("mapRoundTripError with canceledErr=%v, wrapped by http.Client -> %s", cause, c08Rel(out)))
 	}
 	s.Finish()
 }
